@@ -34,7 +34,8 @@ def s_values():
 
 
 def rel_angle():
-    return st.one_of(gens.logmag(-12, 0.49), gens.logmag(-6, 0.49).map(lambda d: PI - d), gens.fl(1e-3, PI - 1e-6), gens.fl(PI / 2, PI - 1e-6))
+    return st.one_of(gens.logmag(-12, 0.49), gens.logmag(-6, 0.49).map(lambda d: PI - d), gens.fl(1e-3, PI - 1e-6), gens.fl(PI / 2, PI - 1e-6),
+                     gens.logmag(-6.5, -3))     # extra weight where a tolerance-sized shortcut would bite
 
 
 def s_interp3():
@@ -304,7 +305,7 @@ def classify(case):
 
 def subchecks(tier):
     return [
-        Sub("interp3", strategy=s_interp3(), n=(300, 12000), shards=(10, 16)),
+        Sub("interp3", strategy=s_interp3(), n=(600, 12000), shards=(10, 16)),
         Sub("interp2", strategy=s_interp2(), n=(300, 8000), shards=(4, 16)),
         Sub("intdtype", strategy=s_intdtype(), n=(300, 4000), shards=(2, 8)),
     ]
